@@ -344,6 +344,8 @@ PROPS["C12"] = dict(
           "deliver-all). Non-trivial = an older session's event or teardown happens after the newest session subscribed. Distinct = distinct case."),
     assumptions=["proviso of the property: the accepting node knows the previous session", "judged only with all gossip delivered (quiescence)"],
     runs=[
+        # takeover during an outage of the broker links; the removal arrives by push/pull 0-28 h later (tombstones must not be forgotten)
+        dict(name="outage", pkg="c12", run="TestOutage", timeout=600),
         dict(name="regress", pkg="c12", run="TestRegress", timeout=300),
         dict(name="random", pkg="c12", run="TestRandom", checks=dict(quick=1600, thorough=16000), shards=16, timeout=dict(quick=400, thorough=2400), shrinktime="90s"),
         dict(name="stale", pkg="c12", run="TestStaleAnnouncement", shards=16, timeout=dict(quick=400, thorough=2400)),
